@@ -15,7 +15,7 @@ import numpy as np
 from harness import buildlib as B
 from harness.common import Run
 
-CONE = ["Base.v", "IR.v", "Show.v", "Build.v", "Sem.v", "Plan.v", "Named.v", "Validate.v", "BuildFacts.v", "SemFacts.v", "FuncFacts.v", "NamedFacts.v", "DfsFacts.v", "CompilePres.v", "ScopeFacts.v", "EmitFacts.v", "ReachFacts.v", "DiscoverFacts.v", "CoverageFacts.v"]
+CONE = ["Base.v", "IR.v", "Show.v", "Build.v", "Sem.v", "Plan.v", "Named.v", "Validate.v", "BuildFacts.v", "SemFacts.v", "FuncFacts.v", "NamedFacts.v", "DfsFacts.v", "CompilePres.v", "ScopeFacts.v", "EmitFacts.v", "ReachFacts.v", "DiscoverFacts.v", "CoverageFacts.v", "PlanFacts.v"]
 PROPS = "props/C01.v"
 
 
@@ -86,6 +86,12 @@ def run(run: Run) -> int:
             run.fail("corr", "C01/coverage-premises-not-met", "a program that builds does not satisfy the premises of "
                      "C01_no_application_is_dropped_by_construction", B.describe(c))
             break
+    sprem = B.premise_eval(run, "c01spec", "PlanFacts", "spec_check_req", [c.coq for c in built])
+    for c, ok in zip(built, sprem):
+        if not ok:
+            run.fail("corr", "C01/spec-plan-premise-not-met", "a program that builds does not satisfy the premise of "
+                     "C01_build_sem_by_construction (its specification-level plan is not a well-formed linearisation)", B.describe(c))
+            break
     nprng = np.random.RandomState(run.seed)
     out_hist = collections.Counter()
     distinct, n_exec, n_bad = set(), 0, 0
@@ -122,6 +128,7 @@ def run(run: Run) -> int:
         "traces_validated_against_impl": len([c for c in cases if c.coq is not None]) - len(mism),
         "disagreements_checked": len(mism),
         "coverage_theorem_premises_met": f"{sum(cprem)} of {len(built)} programs that build",
+        "semantic_theorem_by_construction_premise_met": f"{sum(sprem)} of {len(built)} programs that build",
         "models_executed_ort_vs_numpy": n_exec, "bindings_per_model": 2, "semantic_mismatches": n_bad,
         "input_distribution": {"operators": hist, "outcomes": dict(out_hist)},
         "samples": [B.describe(c) for c in cases[:2]],
